@@ -167,7 +167,7 @@ Definition tok_insert {A} (toks : list A) (tp pos : Z) (ins : list A) : res (edi
   Ok (EDone (a ++ ins ++ b) (if pos <=? tp then tp + len ins else tp)).
 
 (* ------------------------------------------------------------------ compiler kernels *)
-(* testDirective: the description text is s (code points; s[0] is compared with '"', which is the
+(* testDirective: the description text is s (code points; s[0] is compared with the double-quote character, which is the
    same test on bytes and on code points).  unq = strconv.Unquote as an oracle.
    Outcome: None = compile error, Some d = the description used. *)
 Definition test_desc (fx : bool) (unq : str -> option str) (s : str) : res (option str) :=
